@@ -229,6 +229,7 @@ unsigned MessageBase::decode_group(GroupBase *grpbase, const unsigned short fnum
 	for (bool ok(true); ok && s_offset < fsize; )
 	{
 		unique_ptr<MessageBase> grp(grpbase->create_group(false)); // shallow create
+		const unsigned elem_offset(s_offset);
 
 		for (unsigned pos(0); s_offset < fsize && (result = extract_element(dptr + s_offset, fsize - s_offset, tag, val));)
 		{
@@ -269,6 +270,8 @@ unsigned MessageBase::decode_group(GroupBase *grpbase, const unsigned short fnum
 			ostr << tbe->_name << " (" << missing << ')';
 			throw MissingMandatoryField(ostr.str());
 		}
+		if (s_offset == elem_offset)	// nothing could be extracted (truncated or malformed field): not an element, and no progress
+			break;
 		*grpbase << grp.release();
 	}
 
